@@ -347,7 +347,7 @@ class Engine:
         cond = simp(cond)
         if type(cond) is bool:
             return [(st, cond)]
-        if self.merge_depth and self.opts.get("lazy_feasibility", False):
+        if (self.merge_depth and self.opts.get("lazy_feasibility", False)) or self.opts.get("lazy_all", False):
             # inside a merge-enabled function feasibility checks are pure overhead: both successors are explored and
             # meet again at the next merge point (an infeasible one contributes an unsatisfiable guard)
             s2 = st.fork()
@@ -919,7 +919,7 @@ class Engine:
                     if s is not st:
                         forks.append(s)
                 return forks
-            if dest is not None and st.status == "run":
+            if dest is not None and st.status == "run" and type(out).__name__ != "_Redirect":
                 fr.env[dest] = out
             return
         if name in self.merge_funcs and not self.merge_depth:
